@@ -114,6 +114,12 @@ func c13Parser(r *ev.Run) {
 			base := c13pCase{Parser: "lepton", X: res[0], Y: res[1], Edge: edge, TimeOn: 3600000, FFC: 60000, Count: 7, TempK: 30000, FFCK: 29000}
 			// every position of a single zero, and every pair of zeros
 			for a := 0; a < res[0]*res[1]; a++ {
+				for _, fillv := range []uint16{0x00FF, 0x0100, 1} { // neighbours with a zero high or low byte
+					cf := base
+					cf.Pix = mk(res[0], res[1], fillv)
+					cf.Pix[a/res[0]][a%res[0]] = 0
+					try(cf)
+				}
 				c := base
 				c.Pix = mk(res[0], res[1], 3000)
 				c.Pix[a/res[0]][a%res[0]] = 0
